@@ -1,9 +1,140 @@
 import JominiModel.Driver.Util
-namespace Jomini.Driver.C17
-open Jomini Jomini.Driver
+import JominiModel.Model.Dom
+/-
+ops of property C17:
 
-/-- ops of property C17 (none yet). -/
+  dom <input-hex> <tape>      (the model only reads <tape>)
+
+<tape> is the text tape in the format of harness/src/show.rs `text_tape`: tokens joined by ','
+("-" = empty tape), each token one of
+  A<end> Am<end> O<end> Om<end> E<idx> M U:<hex> Q:<hex> P:<hex> N:<hex> H:<hex> Op:<name>
+with <name> ∈ lt le gt ge ne exact eq exists and <hex> lower-case hex ("-" = empty).
+`parseTape` / `tapeStr` below are reusable by other slices.
+
+Answer: `wf=<0|1> R{O:<obj>} <vi>{O:<obj>;A:<arr>} <vi>{H:<arr>} …` — see harness/src/props/c17.rs.
+-/
+namespace Jomini.Driver.C17
+open Jomini Jomini.Driver Jomini.Dom
+
+def opName : Op → String
+  | .lt => "lt" | .le => "le" | .gt => "gt" | .ge => "ge"
+  | .ne => "ne" | .exact => "exact" | .eq => "eq" | .exists_ => "exists"
+
+def parseOp : String → Option Op
+  | "lt" => some .lt | "le" => some .le | "gt" => some .gt | "ge" => some .ge
+  | "ne" => some .ne | "exact" => some .exact | "eq" => some .eq | "exists" => some .exists_
+  | _ => none
+
+def tokStr : TTok → String
+  | .array e m => s!"A{if m then "m" else ""}{e}"
+  | .object e m => s!"O{if m then "m" else ""}{e}"
+  | .mixedContainer => "M"
+  | .unquoted b => s!"U:{toHex b}"
+  | .quoted b => s!"Q:{toHex b}"
+  | .parameter b => s!"P:{toHex b}"
+  | .undefinedParameter b => s!"N:{toHex b}"
+  | .operator o => s!"Op:{opName o}"
+  | .end_ i => s!"E{i}"
+  | .header b => s!"H:{toHex b}"
+
+def tapeStr (t : Tape) : String :=
+  if t.isEmpty then "-" else ",".intercalate (t.toList.map tokStr)
+
+def parseTok (s : String) : Option TTok :=
+  match s.toList with
+  | ['M'] => some .mixedContainer
+  | 'A' :: 'm' :: r => (String.ofList r).toNat?.map (TTok.array · true)
+  | 'A' :: r => (String.ofList r).toNat?.map (TTok.array · false)
+  | 'O' :: 'p' :: ':' :: r => (parseOp (String.ofList r)).map TTok.operator
+  | 'O' :: 'm' :: r => (String.ofList r).toNat?.map (TTok.object · true)
+  | 'O' :: r => (String.ofList r).toNat?.map (TTok.object · false)
+  | 'E' :: r => (String.ofList r).toNat?.map TTok.end_
+  | 'U' :: ':' :: r => (parseHex (String.ofList r)).map TTok.unquoted
+  | 'Q' :: ':' :: r => (parseHex (String.ofList r)).map TTok.quoted
+  | 'P' :: ':' :: r => (parseHex (String.ofList r)).map TTok.parameter
+  | 'N' :: ':' :: r => (parseHex (String.ofList r)).map TTok.undefinedParameter
+  | 'H' :: ':' :: r => (parseHex (String.ofList r)).map TTok.header
+  | _ => none
+
+def parseTape (s : String) : Option Tape :=
+  if s == "-" then some #[] else
+  ((s.splitOn ",").mapM parseTok).map List.toArray
+
+instance : Monad Out where
+  pure := .ok
+  bind x f := match x with | .ok a => f a | .panic => .panic | .fuel => .fuel
+
+/-- `ValueReader::token()` on each yielded value: a checked access -/
+def touch (t : Tape) (v : Nat) : Out Unit :=
+  match t[v]? with | some _ => .ok () | none => .panic
+
+def nats (l : List Nat) : String := " ".intercalate (l.map toString)
+
+def arrView (t : Tape) (r : Nat × Nat) : Out String := do
+  let tl ← tokensLen r.1 r.2
+  let len ← valuesLen t r.1 r.2
+  let sh ← valuesSizeHint t r.1 r.2
+  let vs ← values t r.1 r.2
+  for v in vs do touch t v
+  let hi := match sh.2 with | some n => toString n | none => "-"
+  pure s!"tl={tl},len={len},sh={sh.1}/{hi},V=[{nats vs}]"
+
+def opStr : Option Op → String
+  | some o => opName o
+  | none => "-"
+
+def objView (t : Tape) (r : Nat × Nat) : Out String := do
+  let tl ← tokensLen r.1 r.2
+  let fl ← fieldsLen t r.1 r.2
+  let sh ← fieldsSizeHint t r.1 r.2
+  let (fs, q) ← fields t r.1 r.2
+  for f in fs do touch t f.valueIdx
+  let rem ← arrView t (remainder t q r.2)
+  let (gsh, gs, q') ← fieldGroups t r.1 r.2
+  let _ ← arrView t (remainder t q' r.2)
+  let fstr := " ".intercalate (fs.map fun f => s!"{tokStr f.key}/{opStr f.op}/{f.valueIdx}")
+  let gstr := " | ".intercalate (gs.map fun (f, g) =>
+    s!"{tokStr f.key}>{"+".intercalate (g.toList.map fun ov => s!"{opStr ov.1}/{ov.2}")}")
+  pure s!"tl={tl},fl={fl},sh={sh},F=[{fstr}],gsh={gsh},G=[{gstr}],rem={rem}"
+
+def nodeView (t : Tape) (vi : Nat) (tok : TTok) : Out (Option String) := do
+  match tok with
+  | .array _ _ | .object _ _ =>
+    let o ← readObject t vi
+    let a ← readArray t vi
+    let _ ← valueTokensLen t vi
+    match o, a with
+    | some ro, some ra =>
+      let os ← objView t ro
+      let as ← arrView t ra
+      pure (some s!"{vi}\{O:{os};A:{as}}")
+    | _, _ => pure (some s!"{vi}\{err}")
+  | .header _ =>
+    let a ← readArray t vi
+    match a with
+    | some ra =>
+      let as ← arrView t ra
+      pure (some s!"{vi}\{H:{as}}")
+    | none => pure (some s!"{vi}\{err}")
+  | _ => pure none
+
+def domAll (t : Tape) : Out String := do
+  let root ← objView t (rootReader t)
+  let mut out := s!"R\{O:{root}}"
+  let mut i := 0
+  for tok in t do
+    match ← nodeView t i tok with
+    | some s => out := out ++ " " ++ s
+    | none => pure ()
+    i := i + 1
+  pure out
+
 def handle : Handler
+  | ["dom", _, tp] => (parseTape tp).map fun t =>
+      match domAll t with
+      | .ok s => s!"wf={if wfTape t then 1 else 0} {s}"
+      | .panic => "panic"
+      | .fuel => "fuel"
   | _ => none
 
 end Jomini.Driver.C17
